@@ -48,6 +48,10 @@ def val_py(v):
         return datetime.datetime.fromisoformat(v["v"])
     if k == "bool":
         return bool(v["v"])
+    if k == "bytes":
+        return bytes.fromhex(v["v"])
+    if k == "time":
+        return datetime.time.fromisoformat(v["v"])
     raise ValueError(k)
 
 
@@ -127,7 +131,11 @@ def run_ops(op, ops):
         elif k == "drop_index":
             op.drop_index(o["name"], table_name=o["table"])
         elif k == "bulk_insert":
-            t = sa.table(o["table"], *[sa.column(c["name"], type_py(c["type"])) for c in o["cols"]])
+            if o.get("untyped"):
+                # ad-hoc table whose columns carry no type (NullType): values go to the driver / the literal renderer as they are
+                t = sa.table(o["table"], *[sa.column(c["name"]) for c in o["cols"]])
+            else:
+                t = sa.table(o["table"], *[sa.column(c["name"], type_py(c["type"])) for c in o["cols"]])
             rows = [{n: val_py(v) for n, v in r.items()} for r in o["rows"]]
             if o.get("malformed") == "tuple":
                 rows = tuple(rows)  # not a list: TypeError in both modes
@@ -190,7 +198,10 @@ def render_py(ops):
         elif k == "drop_index":
             out.append("op.drop_index(%r, table_name=%r)" % (o["name"], o["table"]))
         elif k == "bulk_insert":
-            t = "sa.table(%r, %s)" % (o["table"], ", ".join("sa.column(%r, %s)" % (c["name"], type_src(c["type"])) for c in o["cols"]))
+            if o.get("untyped"):
+                t = "sa.table(%r, %s)" % (o["table"], ", ".join("sa.column(%r)" % c["name"] for c in o["cols"]))
+            else:
+                t = "sa.table(%r, %s)" % (o["table"], ", ".join("sa.column(%r, %s)" % (c["name"], type_src(c["type"])) for c in o["cols"]))
             rows = "[%s]" % ", ".join("{%s}" % ", ".join("%r: %r" % (n, val_py(v)) for n, v in r.items()) for r in o["rows"])
             if o.get("malformed") == "tuple":
                 rows = "tuple(%s)" % rows
